@@ -74,6 +74,17 @@ impl BuildRecord {
             });
         }
 
+        // The product name is one segment of the request path on every transport
+        // ("v1/products/<product>/versions", "http://host/<product>/versions"): with a
+        // path, query, fragment or escape character in it no client can address it
+        if self.product.chars().any(|c| matches!(c, '/' | '?' | '#' | '%')) {
+            return Err(DatabaseError::InvalidField {
+                field: "product".to_string(),
+                build_id: self.id,
+                reason: "product name contains '/', '?', '#' or '%'".to_string(),
+            });
+        }
+
         // Validate version and build
         if self.version.is_empty() {
             return Err(DatabaseError::InvalidField {
